@@ -1,5 +1,6 @@
 """C18 - DOF-set partitions and index look-ups (DESIGN.md section C18)."""
-import ast, hashlib, itertools, json, os, sys, time
+import ast
+import warnings, hashlib, itertools, json, os, sys, time
 from types import SimpleNamespace
 import numpy as np
 import z3
@@ -262,6 +263,20 @@ def concrete_helpers(repo, seed, n):
         ev += 2
         if not (np.array_equal(tf.nonzero()[0], pv) and np.array_equal(fl, np.setdiff1d(np.arange(nn), pv))):
             return ev, dict(function="index2bool/flippv", pv=pv.tolist(), n=nn, got=[tf.tolist(), fl.tolist()])
+        # the same two with from-the-end (negative) indices and with a boolean mask: "complement of a[pv]" / "True where a[pv] selects"
+        raw = [int(k_) - (nn if rng.rand() < 0.5 else 0) for k_ in pv]
+        for form in ("neg", "bool"):
+            arg = np.array(raw, int) if form == "neg" else np.isin(np.arange(nn), pv)
+            sel = sorted({k_ % nn for k_ in raw}) if form == "neg" else pv.tolist()
+            fl2 = loc.flippv(arg, nn)
+            ev += 1
+            if np.asarray(fl2).tolist() != [k_ for k_ in range(nn) if k_ not in sel]:
+                return ev, dict(function="flippv", pv=np.asarray(arg).tolist(), n=nn, got=np.asarray(fl2).tolist(), want=[k_ for k_ in range(nn) if k_ not in sel])
+            if form == "neg":
+                tf2 = loc.index2bool(arg, nn)
+                ev += 1
+                if tf2.nonzero()[0].tolist() != sel:
+                    return ev, dict(function="index2bool", pv=np.asarray(arg).tolist(), n=nn, got=tf2.tolist())
         # mat_intersect: D1[pv1] == D2[pv2] row-wise; every common row reported
         r1, r2 = rng.randint(0, 6), rng.randint(0, 6)
         ncol_ = (2, 1, 3, 2)[it % 4]
@@ -389,7 +404,7 @@ def run(tier, seed):
               "(their comparison-driven control flow is explored exhaustively)")
     run.assume("pandas plumbing (uset['nasset'].values, index levels) returns the stored columns: mksetpv is given the column directly, mkdofpv its NumPy-table form (nasset='p')",
                "array shapes are fixed per configuration (rows <= 4); values are fully symbolic within ids 1..50 / indices -3..12")
-    run.not_covered += ["make_uset / addgrid construction of the table", "find_subseq, find_rows", "array lengths above the explored shapes (row-wise / order-type argument not mechanised)"]
+    run.not_covered += ["addgrid construction of the table (make_uset: bounded only)", "array lengths above the explored shapes (row-wise / order-type argument not mechanised)"]
     n2p = alg.load_module(report.REPO, N2P)
     for rel, names in ((N2P, ("mkusetmask", "mksetpv", "mkdofpv", "expanddof")), (LOC, ("index2slice", "index2bool", "flippv", "find_duplicates", "mat_intersect", "list_intersect", "merge_lists"))):
         for nd in ast.parse(report.read_source(rel)).body:
@@ -417,6 +432,10 @@ def run(tier, seed):
     run.bounded.append(dict(name="find_duplicates, index2bool, flippv, mat_intersect (keep 0/1/2, mixed element types), find_vals, find_subseq, find_rows, find_unique, list_intersect, merge_lists on random small inputs and "
                                  "expanddof over all 63 component codes + invalid digits, against their defining equations", evaluations=ev,
                             failures=0 if cf is None else 1, label="bounded (hash / byte-view based helpers cannot be executed symbolically)"))
+    ev2, cf2 = report.guarded(run, make_uset_bounded, report.REPO, seed, 150 if tier == "quick" else 2500)
+    run.bounded.append(dict(name="make_uset: mixes of compact grids / bare ids, grids written out as six rows and scalar points, per-row sets as letters or masks or one set for all: table rows, "
+                                 "base set of every row, mksetpv per base set, mkdofpv look-up", evaluations=ev2, failures=0 if cf2 is None else 1, label="bounded (never counted as proved)"))
+    cf = cf or cf2
     failed = [v for v in vs if v.status == "failed"]
     if failed:
         run.violation(failed[0].name, "obligation(s) failed: " + ", ".join(v.name for v in failed[:5]),
@@ -424,6 +443,69 @@ def run(tier, seed):
     elif cf is not None:
         run.violation("bounded:" + cf["function"], "defining equation violated by %s" % cf["function"], dict(concrete=cf), concrete=True)
     return run.finish()
+
+
+def make_uset_bounded(repo, seed, n):
+    """bounded: n2p.make_uset builds the table the DOF list and the per-row / single set assignment describe - rows (id, dof) in entity order with grids expanded to
+    1..6, every row in exactly the base set given for it - for every mix of compact grids [id, 123456] (or bare ids), grids written out as six rows and scalar points;
+    mksetpv / mkdofpv on the result agree with the assignment"""
+    n2p = alg.load_module(repo, N2P)
+    rng = np.random.RandomState(seed + 77)
+    base = "msoqrcbe"
+    ev = 0
+    for it in range(n):
+        ne = rng.randint(1, 5)
+        ids = (rng.permutation(40)[:ne] + 1).tolist()
+        if it % 3 == 0:
+            ids = sorted(ids)
+        kinds = [("compact", "expanded", "spoint")[rng.randint(3)] for _ in ids]
+        if it % 7 == 3:
+            kinds = ["compact"] * ne
+        dof, sets, want = [], [], []
+        for i_, k_ in zip(ids, kinds):
+            if k_ == "compact":
+                L = base[rng.randint(8)]
+                dof.append([i_, 123456]); sets.append(L)
+                want += [(i_, d_, L) for d_ in range(1, 7)]
+            elif k_ == "expanded":
+                Ls = [base[rng.randint(8)] for _ in range(6)] if rng.rand() < 0.8 else [base[rng.randint(8)]] * 6
+                for d_, L in zip(range(1, 7), Ls):
+                    dof.append([i_, d_]); sets.append(L)
+                    want.append((i_, d_, L))
+            else:
+                L = base[rng.randint(8)]
+                dof.append([i_, 0]); sets.append(L)
+                want.append((i_, 0, L))
+        forms = [("letters", sets), ("masks", [int(n2p.mkusetmask(L)) for L in sets])]
+        if len(set(sets)) == 1:
+            forms.append(("single", sets[0]))
+        darg = np.array(dof)
+        if all(k_ == "compact" for k_ in kinds) and it % 2:
+            darg = np.array(ids)               # bare ids = grids
+        for fname, nas in forms:
+            ev += 1
+            try:
+                with warnings.catch_warnings():
+                    warnings.simplefilter("ignore")
+                    u = n2p.make_uset(darg, nas)
+            except ValueError:
+                raise
+            got_idx = [(int(a_), int(b_)) for a_, b_ in u.index.tolist()]
+            got_set = [int(x_) for x_ in u["nasset"].values]
+            ok = got_idx == [(a_, b_) for a_, b_, _ in want] and got_set == [int(n2p.mkusetmask(L)) for _, _, L in want]
+            if ok:
+                for L in base:
+                    pvs = n2p.mksetpv(u, "p", L)
+                    if pvs.tolist() != [w_[2] == L for w_ in want]:
+                        ok = False
+            if ok and want:
+                k_ = rng.randint(len(want))
+                pos = n2p.mkdofpv(u, "p", [[want[k_][0], max(want[k_][1], 0)]])[0]
+                ok = list(pos) == [k_]
+            if not ok:
+                return ev, dict(function="make_uset", dof=np.asarray(darg).tolist(), nasset=nas if isinstance(nas, str) else list(nas), form=fname,
+                                got=[list(a_) + [b_] for a_, b_ in zip(got_idx, got_set)][:30], want=[[a_, b_, int(n2p.mkusetmask(L))] for a_, b_, L in want][:30])
+    return ev, None
 
 
 def model_input(v):
